@@ -55,6 +55,8 @@ func extraSpecs() []*PropertySpec {
 		{ID: "C07", Rules: []string{"TERM-VOTE", "STATE-TRANSITIONS", "COUNT-VOTES", "AE-HANDLER"}, Decided: "leader completeness rests on one vote per term, a real-vote quorum and log matching"},
 		{ID: "C11", Rules: []string{"RECORD-OFFSET", "LOG-WSP"}, Decided: "entries that survive a compaction keep the position of their own record, so a later truncation cuts the file where the log says"},
 		{ID: "C15", Rules: []string{"APPLY-WAIT"}, Decided: "the apply loop never sleeps on its edge-triggered signal while committed entries are waiting (a lost wake-up would leave a follower of an idle cluster behind for ever)"},
+		{ID: "C14", Rules: []string{"IS-HANDLER"}, Decided: "a snapshot transfer that a crash of the receiver interrupted restarts from the receiver's real offset: a chunk is written only at the offset the partial file has reached"},
+		{ID: "C18", Rules: []string{"APPLY-WAIT"}, Decided: "the exported InstallSnapshot handler does not block for ever on an idle cluster: the apply loop signals what it applied"},
 		{ID: "C14", Rules: []string{"RESTORE-RECONCILE"}, Decided: "a node started over a directory in which a received snapshot is visible but the log was not yet discarded brings the log in line with the snapshot, so that it accepts what follows the snapshot"},
 		{ID: "C15", Rules: []string{"RESTORE-RECONCILE"}, Decided: "the restarted node of C14's interrupted installation catches up (it would otherwise reject both the entries after the snapshot and the snapshot)"},
 		{ID: "C18", Rules: []string{"OPTION-RANGE"}, Decided: "invalid option values that would crash or cripple the node later (a log level beyond Fatal, an election timeout below one millisecond) are refused with an error at construction"},
